@@ -325,17 +325,27 @@ Definition ops_ns_b (d : path) (E : list Z) (mid : list op) : bool :=
   forallb (fun o => forallb (fun p => negb (stale_in d E p)) (op_paths o)) mid.
 
 (* the hypotheses of the theorems of Props/C19.v about one life with a tmp_dir, as ONE boolean
-   (evaluated by the harness on the life recorded from a real run_mapping, tag 1954):
+   (evaluated by the harness on the lives recorded from real run_mapping's, tag 1954):
    f0 well formed, d a directory, the drawn name new, calls of one life only; the environment
-   writes no file that existed before the life (the inputs; c19_tracker_inputs_untouched asks
-   this only of the path it speaks about); no requested output lies inside the tracker's own
-   directory; the calls name nothing at or below an entry d had before the life
-   (c19_tracker_independent_of_stale). *)
-Definition life_premise (f0 : fs) (d : path) (n0 : Z) (mid : list op) : bool :=
+   writes no path that was HANDED TO THE TRACKER (`added mid`: the add_file'd paths) except those
+   listed in `ow`; no requested output lies inside the tracker's own directory; the calls name
+   nothing at or below an entry d had before the life (c19_tracker_independent_of_stale).
+   `ow` ("overwritten by design") is [] for a plain _run_mapping and [query] when obsm_key is set:
+   append_to_obsm(h5ad_path=config['query_path']) opens the ORIGINAL query path read-write while
+   the tracker lives (cli/from_specified_markers.py:438 - not the tracker's copy, which only the
+   readers of real_location(query) see), so the query IS written and theorem (1) is silent about it
+   on such a life, as it must be.
+   Audit 4 (A1): the clause used to be "the environment writes no FILE OF f0".  That is false on
+   real lives the theorems quantify over: a second run with the same csv_result_path rewrites the
+   CSV the first left (a file of f0, never handed to the tracker).  The theorems never needed it:
+   (1) and (4) ask "not written" only of the path they speak about. *)
+Definition life_premise_ow (ow : list path) (f0 : fs) (d : path) (n0 : Z) (mid : list op) : bool :=
   wfb f0 && n_is_dir (look f0 d) && n_is_absent (look f0 (d ++ [n0])) && forallb mid_op mid
-  && forallb (fun q => negb (n_is_file (look f0 q))) (written mid)
+  && forallb (fun q => negb (mem q (added mid)) || mem q ow) (written mid)
   && forallb (fun p => negb (is_prefix (d ++ [n0]) p)) (requested mid)
   && ops_ns_b d (entries f0 d) mid.
+Definition life_premise (f0 : fs) (d : path) (n0 : Z) (mid : list op) : bool :=
+  life_premise_ow [] f0 d n0 mid.
 
 (* ---- wire ---- *)
 Definition sx_opath (x : sx) : option (option path) :=
@@ -453,17 +463,25 @@ Definition run_mkstemp_clean (x : sx) : sx :=
   | _ => sx_bad
   end.
 
-(* tag 1954: the hypotheses of the tracker theorems on a recorded life (fs d n0 mid) ->
-   (life_premise, strict protocol writes_ok, |written|, |requested|) *)
+(* tag 1954: the hypotheses of the tracker theorems on a recorded life (fs d n0 mid) or
+   (fs d n0 mid ow) -> (life_premise[_ow], strict protocol writes_ok, |written|, |requested|,
+   the OLD clause of audit 4 A1 "no file of f0 is written" - reported, not required) *)
 Definition run_life_premise (x : sx) : sx :=
+  let go f' d' n0 mid ow :=
+    sx_ok (L [of_bool (life_premise_ow ow f' d' n0 mid);
+              of_bool (writes_ok (start f') [] (Create (Some d') n0 :: mid));
+              of_nat (length (written mid)); of_nat (length (requested mid));
+              of_bool (forallb (fun q => negb (n_is_file (look f' q))) (written mid))]) in
   match x with
   | L [f; d; I n0; ops] =>
       match sx_list sx_entry f, sx_path d, sx_list sx_top ops with
-      | Some f', Some d', Some mid =>
-          sx_ok (L [of_bool (life_premise f' d' n0 mid);
-                    of_bool (writes_ok (start f') [] (Create (Some d') n0 :: mid));
-                    of_nat (length (written mid)); of_nat (length (requested mid))])
+      | Some f', Some d', Some mid => go f' d' n0 mid []
       | _, _, _ => sx_bad
+      end
+  | L [f; d; I n0; ops; ow] =>
+      match sx_list sx_entry f, sx_path d, sx_list sx_top ops, sx_list sx_path ow with
+      | Some f', Some d', Some mid, Some ow' => go f' d' n0 mid ow'
+      | _, _, _, _ => sx_bad
       end
   | _ => sx_bad
   end.
